@@ -215,6 +215,9 @@ type wcfg struct {
 	MinimalTags  bool // Opts.Tags carries only MsgType and MsgSeqNum (the two the library insists on)
 	SeqReset     bool // the optional SequenceReset builder is configured
 	LogonTimeout time.Duration // acceptor's LogonSettings.LogonTimeout (default 30 s)
+	// PreSession runs between the construction of the handler and that of the session: what an application
+	// registers on the handler first (a filter, say) runs in front of the session's own hooks
+	PreSession func(h *simplefixgo.DefaultHandler)
 }
 
 type world struct {
@@ -278,6 +281,9 @@ func newWorld(c wcfg) *world {
 	if c.Role == "ini" {
 		w.self, w.peer = "CLI", "SRV"
 		w.h = simplefixgo.NewInitiatorHandler(context.Background(), "35", c.Buf)
+		if c.PreSession != nil {
+			c.PreSession(w.h)
+		}
 		hb := c.HbInt
 		if hb == 0 {
 			hb = 30
@@ -289,6 +295,9 @@ func newWorld(c wcfg) *world {
 	} else {
 		w.self, w.peer = "SRV", "CLI"
 		w.h = simplefixgo.NewAcceptorHandler(context.Background(), "35", c.Buf)
+		if c.PreSession != nil {
+			c.PreSession(w.h)
+		}
 		lt := 30 * time.Second
 		if c.LogonTimeout > 0 {
 			lt = c.LogonTimeout
